@@ -70,7 +70,9 @@ def make(kind: str, rng, dim: int = 2, et: str | None = None, bc: bool = True, *
         return simu, {"kind": kind, "L": L, "Lx": L, "n0": n0, "nL": nL, "dim": bdim, "et": et}
 
     et = et or ("TRI3" if dim == 2 else "TETRA4")
-    mesh, (Lx, Ly, h) = small_mesh(rng, dim, et, size=kw.get("size", 1.0), organised=kw.get("organised", False))
+    # (a weak-form model holds one Field on one group of elements: a recombined mesh must not keep triangles)
+    organised = kw.get("organised", False) or (kind == "weakforms" and et.startswith(("QUAD", "HEXA")))
+    mesh, (Lx, Ly, h) = small_mesh(rng, dim, et, size=kw.get("size", 1.0), organised=organised)
     n0 = nodes_x(mesh, 0.0)
     nL = nodes_x(mesh, Lx)
     names = ["x", "y", "z"][:dim]
